@@ -251,7 +251,13 @@ var c13unmarshal = Register("C13", "C13.unmarshal", func(a c13UnmarshalArgs) *Vi
 		return nil
 	}
 	// not JSON at all: no panic (reaching here proves it); if accepted, the value must be the one Parse gives
-	if err == nil && u != sentinel {
+	if err == nil && a.Data == "" {
+		// empty input is a deliberate no-op of the code (encoding/json never passes it on); the statement does not
+		// settle it
+		st.Class("empty-input")
+	} else if err == nil {
+		// (also when the receiver still holds its earlier value: only `null` may be accepted without storing
+		// anything, so a nil error for any other input must come with the value Parse gives for it)
 		p, perr := d128.Parse(a.Data)
 		if perr != nil || !ref.SameVal(ref.Decode(p), ref.Decode(u)) {
 			return violf("UnmarshalJSON(%s) silently stored %s; Parse gives %s, %v", show, ref.Decode(u), ref.Decode(p), perr)
@@ -356,7 +362,25 @@ func TestC13_Marshal(t *testing.T) {
 func TestC13_Unmarshal(t *testing.T) {
 	runRapid(t, 40000, 2000000, func(t *rapid.T) {
 		var s string
-		switch ir(t, 0, 9, "kind") {
+		switch ir(t, 0, 10, "kind") {
+		case 10:
+			// the JSON literals with one byte changed, dropped, doubled or its case flipped: a shortcut that
+			// recognises `null` by its length and first letter accepts "none"
+			b := []byte([]string{"null", "null", "true", "false", "NaN", "Infinity"}[ir(t, 0, 5, "lit")])
+			pos := ir(t, 0, len(b)-1, "pos")
+			switch ir(t, 0, 4, "edit") {
+			case 0:
+				b[pos] = byte(ir(t, 0, 255, "byte"))
+			case 1:
+				b[pos] ^= 0x20
+			case 2:
+				b = append(b[:pos], b[pos+1:]...)
+			case 3:
+				b = append(b[:pos+1], b[pos:]...)
+			default:
+				b[pos] = "nulxe0 1_"[ir(t, 0, 8, "near")]
+			}
+			s = string(b)
 		case 0:
 			s = []string{"null", `""`, `"1"`, `"1.5"`, "true", "false", "[]", "[1]", "{}", `{"a":1}`, `"NaN"`, `"Inf"`, "[1.5]", `"null"`}[ir(t, 0, 13, "fixed")]
 		case 1:
